@@ -5,10 +5,74 @@ HERE = os.path.dirname(os.path.dirname(os.path.abspath(__file__)))
 
 # id -> (technique, level text, level note, design ref)   -- only properties whose check is built
 CHECKS = {
+ "C01": ("structured + random + mutated-golden generation (proptest, shrinking) and exhaustive 8/16-bit window sweeps against a totality oracle (catch_unwind, length rule, decode-twice, from_bytes differential)",
+         "Millions of byte strings of length 0..32 covering every DF, type code, subtype, ADS-B version and Comm-B register template (histogram in the evidence shows each class accepted) are decoded under catch_unwind; accepted frames are rendered in all text forms, re-decoded, and cross-checked against from_bytes. A panic, an accepted wrong-length input or a non-deterministic decode is a violation. Sampling cannot prove totality over 2^112 frames; the window sweeps make every byte value at every position of every shape certain.",
+         "Trusted: the generator reaches the guarded arithmetic (checked by the class histogram; starvation aborts with exit 2). Non-termination is only observable through the watchdog (exit 2).",
+         "DESIGN.md 5 C01"),
+ "C02": ("exhaustive table / error-pattern enumeration and generated frames against a bitwise CRC-24 long-division reference (differential), end-to-end corruption of sampled valid frames",
+         "All 256 table rows, every burst error polynomial up to 24 bits (quick: 18) through the real modes_checksum, all 112 single-bit, 6216 double-bit and short-burst corruptions of sampled valid DF17 frames end-to-end, acceptance <=> zero syndrome on generated frames, and AP overlay recovery for DF0/4/5/16/20/21 over boundary and random (thorough: all 2^24) addresses.",
+         "Trusted: bitwise long division by 0x1FFF409; linearity of the CRC ties the error-polynomial sweep to end-to-end behaviour (also sampled end-to-end).",
+         "DESIGN.md 5 C02"),
+ "C03": ("exhaustive per-field code enumeration through whole frames built by an independent encoder (round trip), proptest combinations for Comm-B registers",
+         "Every code of every field named in the property (addresses sampled; all 64x8 call-sign codes in BDS 0,8 and 2,0; all Q-bit and Gillham altitudes in every carrier; all 4096 squawks; all 4.19 M subtype-1 velocity pairs; headings, airspeeds, vertical rates, GNSS differences, movement codes, surface tracks, selected altitudes, QNH, selected headings; every code of every BDS 4,0/5,0/6,0 field; DF20 labelling over all 4096 altitude codes) is encoded per the standard, decoded by Message::try_from and compared on the struct field and on the JSON key within one LSB.",
+         "Trusted: vcore::enc follows Annex 10 / Doc 9871 / DO-260B; a misreading of the standard shared by encoder and decoder is invisible. Sentinel codes and values outside the decoder's documented plausibility filters are outside the domain (listed under observations).",
+         "DESIGN.md 5 C03"),
+ "C04": ("stratified generated points (proptest) + deterministic sweeps of all 58 NL transitions, encoded by an independent DO-260B CPR encoder; oracle: within 10 m or absent-only-if-NL-differs",
+         "Points from nine strata (uniform sphere, every NL transition, +-87 deg, poles, equator, zone edges, special meridians) are encoded even and odd, carried in real DF17 frames and decoded in both orders and with equal parities. Wrong positions, out-of-range coordinates, a missing position although both reports lie in the same NL band, or a position from equal parities are violations.",
+         "Trusted: independent CPR encoder and closed-formula NL (pinned by a published example and table values). Latitudes within 1e-7 deg of an inexact NL transition are excluded and counted.",
+         "DESIGN.md 5 C04"),
+ "C05": ("generated (truth, reference) pairs against the independent CPR encoder: in-range round trip within 10 m, and a half-zone validity predicate for arbitrary finite references",
+         "In-range references (random bearing, up to 0.95 of 180 NM / 45 NM, r = 1 boosted) must give the true position modulo 360 for airborne and surface reports of both parities; arbitrary references (huge, denormal, zone edges, poles, antimeridian) must give nothing or a position within half a zone of the reference with latitude in range.",
+         "Trusted: as C04. Cases beyond 0.95 half-zones in one coordinate (high latitudes) are physically ambiguous and excluded (counted).",
+         "DESIGN.md 5 C05"),
+ "C06": ("stateful history generation (proptest vec of plans, shrinking) through decode_positions; oracle: every attached position within 25 m of the encoded one + metamorphic non-interference (aircraft alone vs interleaved, bit-identical)",
+         "Histories of 1-4 aircraft with generated flight plans, loss levels, duplicates, neighbour swaps, gaps straddling the 10 s and 180 s windows, landings, take-offs and the adversarial 'one surface zone away after a long gap' family are encoded by the independent encoder and decoded by the real batch driver.",
+         "Trusted: independent encoder; speeds <= 700 kt; receiver reference within 36 NM of every surface site and fixed (update_reference = None).",
+         "DESIGN.md 5 C06"),
+ "C07": ("exhaustive enumeration of the finite message-shape space with random fills + the C01 generators; oracle: serialisation succeeds, strict duplicate-rejecting JSON reader, df/icao24 vs independently computed values, hex round trip",
+         "Every combination of DF x CA/CF x TC x subtype x version x Comm-B template is built (shape space exhaustive, bits inside sampled) and serialised as Message and as TimedMessage.",
+         "Trusted: own strict JSON reader (unit-tested), independent CRC for the AP address.",
+         "DESIGN.md 5 C07"),
+ "C08": ("C01's generators + per-register extreme fills + all 8192 AC/ID codes, checked against a range predicate on the typed message and on every JSON key by name",
+         "Every accepted frame produced by the structured generators, the byte-window sweeps, min/max/sign-only register templates and the 13-bit code sweeps is checked for the physical ranges the property lists.",
+         "Trusted: BDS 6,0 rates are bounded by the field's encodable span, as the property says, not by the decoder's tighter plausibility filter.",
+         "DESIGN.md 5 C08"),
+ "C09": ("generated frame sequences x exhaustive single/double cut points, escape-pair cuts, dribble, random multi-cuts (proptest, shrinking) through the real next_msg via an in-memory chunk source; oracle: byte-exact prefix + bounded pending + equality with whole-stream delivery; reference deframer as second opinion",
+         "Sequences of Mode-AC/short/long Beast frames with boosted 0x1A density, runs of 0x1A and 0x1A at the payload edges are delivered under every single cut, every pair of cuts (short streams), cuts inside every escape pair, byte-by-byte, random multi-cuts and 1024-byte reads.",
+         "Trusted: hook H1 copies chunks exactly like the websocket arm of the real reader.",
+         "DESIGN.md 5 C09"),
+ "C10": ("model-based testing: exhaustive short histories + proptest long histories through the real deduplicate_messages, compared with an executable reference model and model-free conservation invariants; thorough adds a CLI differential through decode1090",
+         "All histories up to length 5 (thorough 6) over 2 frames x 2 receivers x 4 grid times x 3 windows, a second exhaustive alphabet of two decodable frames, and random histories up to 200 arrivals (ordered, unordered, bursts) over six frames and six windows.",
+         "Trusted: the implementation's millisecond clock is the clock (timestamps generated mid-millisecond); open groups at end of input are legitimately pending.",
+         "DESIGN.md 5 C10"),
+ "C11": ("full cross product of filter shapes per DF + proptest configurations; oracle: predicate over the df / icao24 of the record's own JSON",
+         "For each of the nine address-carrying DFs, every combination of {absent, empty, own value, other values, mixed} for both filters, built as structs and through TOML, plus random configurations and undecoded records.",
+         "Trusted: 'displayed' means the df / icao24 of serde_json::to_value(&TimedMessage).",
+         "DESIGN.md 5 C11"),
+ "C12": ("stateful history generation (proptest) through the real update_snapshot via the driver compiled into jet1090; oracle: independent bookkeeping (keys, count, first/last seen), value provenance, metamorphic non-interference (aircraft alone vs interleaved)",
+         "Histories of up to 119 records from 1-6 aircraft with look-alike addresses over 22 record kinds (incl. records without an address and the BDS 5,0+6,0 conflict) are replayed and the table is read back exactly as /all serialises it.",
+         "Trusted: hook H2 builds the application state with the same literal as main(); positions are injected per record.",
+         "DESIGN.md 5 C12"),
  "C13": ("exhaustive enumeration of all codes against an independent Gillham/Q-bit encoder table (differential), Gray-sequence invariant",
          "Every one of the 8192 AC codes (through DF0/4/16/20 frames), 4096 ME altitude codes (through TC 9-18, 20-22 frames), 65536 gray2alt arguments and 8192 identity codes is decoded and compared with a table produced by an encoder written from the standard. The space is finite and fully enumerated, so within the trusted base this decides the property for the current tree.",
          "Trusted: the independent encoder (reflected Gray + 5-cycle C code, checked against published table points), the frame builders, serde_json. 0 ft in the 12-bit field may be 0 or unavailable.",
          "DESIGN.md 5 C13"),
+ "C14": ("exhaustive enumeration of all 2^24 addresses (plus 2^20 out-of-range values) with an injectivity map and an independently parsed address-block table as oracle",
+         "tail() is called for every address under catch_unwind; registrations are collected in a map (collision = violation) and each is matched against the pattern of an address block of patterns.json that contains the address; aircraft_information is cross-checked on a stride sample.",
+         "Trusted: patterns.json is the address-block table; it is parsed independently of the crate's loader.",
+         "DESIGN.md 5 C14"),
+ "C15": ("proptest packets / timestamps / references for totality and ranges; round trip through an independent key schedule + XXTEA encryptor pinned to the repository's captured packets",
+         "Random and well-formed packets with any timestamp and odd references (NaN, infinities, 1e300, i32 limits) must decode or fail cleanly with finite numbers and a track in [0, 360); field tuples encrypted by the independent implementation must decode to the same address, type, flags, GPS, altitude and to the true position within 1.28e-5 deg, for both key tables.",
+         "Trusted: the independent encryptor reproduces both captured packets byte for byte (checked on every run); echoed reference inputs are not 'numbers of the record'.",
+         "DESIGN.md 5 C15"),
+ "C16": ("grammar-based generation of well-formed specifications with a constructed oracle + mutation / random strings for totality (proptest, shrinking); serial compared across string / TOML forms and a second process",
+         "Specifications built from the documented forms with hosts (DNS, IPv4, IPv6), ports, paths, rtlsdr arguments and references (all 5270 ICAO codes usable, lat,lon spellings) must parse to the canonical endpoint and the right position; serials must agree between forms and processes; mutated and arbitrary strings must never panic in Source::from_str or Position::from_str.",
+         "Trusted: airports.json parsed independently; generated hosts are already canonical for the url crate.",
+         "DESIGN.md 5 C16"),
+ "C17": ("exhaustive breadth-first exploration of the abstract UI state graph for 0..3 rows through the real update() (driver), plus proptest event sequences; oracle: no panic, selection range, reference automaton for the documented flags",
+         "Every (state, event) edge of the state graph abstracted to (quit, search mode, query length <= 2, sort key, order, width, selection) is executed by replaying its shortest path from a fresh application state; random sequences of up to 300 events run on tables of 0..3, 10 and 1000 rows.",
+         "Trusted: hook H2; the row count is fixed during a sequence.",
+         "DESIGN.md 5 C17"),
  "C18": ("generated-input search (dense sweeps at the day boundaries + proptest uniform) against an i128 reference formula",
          "Every nanosecond within a window of each of the 8 day boundaries and leap offsets, strided minutes around them and uniform samples of the week are compared with (t - 18 s) mod day computed in i128; week starts are checked for every week boundary 1980-2100 +-20 s plus uniform samples. The defect class (unsigned underflow, off-by-one at a boundary) lives exactly where the sweep is dense.",
          "Trusted: the 18 s constant is the specification; i128 arithmetic of the oracle.",
